@@ -1,5 +1,6 @@
 import ActsModel.Spec.Stream
 import ActsModel.Spec.Lifecycle
+import ActsModel.Lemmas.Stream
 
 /-!
 # C08 — Message stream is a faithful, ordered image of task lifecycles
@@ -33,18 +34,60 @@ theorem announce_table (s : TaskState) (h : s ≠ .pending) : (stage s = 1 ∨ s
 
 /-- the monitor lets no second terminal message of a task pass -/
 theorem monitor_rejects_second_terminal (st : SState) (i : Nat) (m : SMsg) (t : STask)
-    (hfind : st.tasks.find? (·.tid == m.tid) = some t) (hid : st.mids.contains m.mid = false) (hrep : (t.kind == "branch") = false)
-    (hf : (m.pid != st.pid || m.nid != t.nid || m.type != t.kind || m.uses != t.uses) = false)
-    (hs : (m.state != (msgStateOf t.state).toStr) = false) (hterm : terminalMsgStates.contains m.state = true)
+    (hfind : st.tasks.find? (·.tid == m.tid) = some t) (hd : genDescribes st t m = none) (hterm : terminalMsgStates.contains m.state = true)
     (hone : t.terminal ≥ 1) : (streamStep st i (.gen m)).2 = some (i, "second-terminal-message", m.tid) := by
-  have h1 : decide (t.terminal + 1 > 1) = true := by simp; omega
-  simp only [streamStep, hfind, hid, hrep, hf, hs, hterm, Bool.false_eq_true, ↓reduceIte, Bool.not_true, Bool.true_and, h1]
+  simp only [streamStep, hfind, hd, genOrdered, SMsg.isTerm, hterm, hone, ↓reduceIte, Option.map_some]
 
 /-- the monitor lets no message with a reused id pass -/
 theorem monitor_rejects_duplicate_id (st : SState) (i : Nat) (m : SMsg) (t : STask)
     (hfind : st.tasks.find? (·.tid == m.tid) = some t) (hid : st.mids.contains m.mid = true) :
     (streamStep st i (.gen m)).2 = some (i, "duplicate-message-id", m.tid) := by
-  simp only [streamStep, hfind, hid, ↓reduceIte]
+  simp only [streamStep, hfind, genDescribes, hid, ↓reduceIte]
+
+/-- **message ids are unique** (K3, every stream): the ids of the generated messages of a stream the monitor accepts are pairwise distinct -/
+theorem accepted_ids_unique (pid : String) (evs : List SEv) (h : streamMonitor { pid := pid } 0 evs = none) : (genMids evs).Nodup :=
+  (streamMonitor_mids evs { pid := pid } 0 h List.nodup_nil).1
+
+/-- **at most one created and at most one terminal message per task, created first** (K3, every stream and every task): in a stream
+the monitor accepts (tasks announced with empty counters, as the driver builds them) each task has at most one terminal message, at
+most one created message, and no terminal message of the task precedes its created message -/
+theorem accepted_once_per_task (pid : String) (evs : List SEv) (x : Nat) (h : streamMonitor { pid := pid } 0 evs = none)
+    (hw : ∀ e ∈ evs, wfEv e) :
+    (evs.filter (isTermGen x)).length ≤ 1 ∧ (evs.filter (isCreatedGen x)).length ≤ 1 ∧
+    ∀ pre e post, evs = pre ++ e :: post → isCreatedGen x e = true → (pre.filter (isTermGen x)).length = 0 := by
+  have h0 : seenTerm { pid := pid } x = 0 := by simp [seenTerm, recOf]
+  have h1 : seenCreated { pid := pid } x = 0 := by simp [seenCreated, recOf]
+  have hc := streamMonitor_counts evs x { pid := pid } 0 h hw (by omega) (by omega)
+  rw [h0, h1] at hc
+  refine ⟨by omega, by omega, ?_⟩
+  intro pre e post heq hcr
+  have := streamMonitor_created_before_terminal evs x { pid := pid } 0 h hw pre e post heq hcr
+  rw [h0] at this
+  omega
+
+/-- **every message describes its task** (K3, every stream): a generated message of an accepted stream belongs to a task the stream has
+announced, which is not a branch, and carries that task's pid, node id, type, uses and — through `msgStateOf` — the state the task has at
+that point of the stream; a created message of a child comes after the created message of its reporting parent -/
+theorem accepted_message_describes_task (pid : String) (pre post : List SEv) (m : SMsg)
+    (h : streamMonitor { pid := pid } 0 (pre ++ .gen m :: post) = none) :
+    ∃ t, recOf (streamRun { pid := pid } 0 pre) m.tid = some t ∧ t.kind ≠ "branch" ∧
+      m.pid = pid ∧ m.nid = t.nid ∧ m.type = t.kind ∧ m.uses = t.uses ∧
+      m.state = (msgStateOf t.state).toStr ∧
+      (m.isTerm = false → ∀ p, sParent (streamRun { pid := pid } 0 pre).tasks t = some p → reports p = true → isMsgAct p = false → p.created ≥ 1) := by
+  obtain ⟨_, h2⟩ := streamMonitor_append pre { pid := pid } 0 _ h
+  obtain ⟨h3, _⟩ := streamMonitor_none_cons _ _ _ _ h2
+  obtain ⟨t, gp⟩ := streamStep_gen_pass _ _ m h3
+  exact ⟨t, gp.found, gp.notBranch, by rw [gp.pid, streamRun_pid], gp.nid, gp.type, gp.uses, gp.state, gp.parentFirst⟩
+
+/-- **nothing is missing at the end of a run** (K3, every stream): where an accepted stream marks the end of a run, every reporting task
+(workflow, step, interrupt act, message act) that got past its initialisation has had its created message (message acts have none), and
+every one that has ended has had its terminal message -/
+theorem accepted_nothing_missing (pid : String) (pre post : List SEv) (h : streamMonitor { pid := pid } 0 (pre ++ .done :: post) = none) :
+    ∀ t ∈ (streamRun { pid := pid } 0 pre).tasks, reports t = true →
+      (isMsgAct t = false → t.everCreated = true → t.created ≥ 1) ∧ (t.state.isCompleted = true → t.terminal ≥ 1) := by
+  obtain ⟨_, h2⟩ := streamMonitor_append pre { pid := pid } 0 _ h
+  obtain ⟨h3, _⟩ := streamMonitor_none_cons _ _ _ _ h2
+  exact streamStep_done_pass _ _ h3
 
 /-- non-vacuity: created then completed for a step is accepted; a second completed is not -/
 def exNew : SEv := .new { tid := 1, nid := "s1", kind := "step", uses := "", level := 1, prev := some 0 }
